@@ -7,6 +7,7 @@ import (
 	"fmt"
 	"strconv"
 	"strings"
+	"time"
 
 	schema "github.com/jsightapi/jsight-schema-core"
 	cbytes "github.com/jsightapi/jsight-schema-core/bytes"
@@ -301,6 +302,9 @@ var c19OpKinds = []string{"set", "update", "delete", "filter", "map", "find", "m
 var errC19Map = errors.New("callback refuses")
 
 // predicates for filter/find: by selector
+// c19ReadsBlock is set once a Find whose predicate reads the container has not come back.
+var c19ReadsBlock bool
+
 func c19Pred(sel int) func(k, v int) bool {
 	switch sel % 6 {
 	case 0:
@@ -430,7 +434,33 @@ func c19Apply(r *mon.Run, cs c19Case) bool {
 		case "find":
 			var got kv
 			var found bool
-			p = mon.Guard(func() { got, found = m.Find(c19Pred(op.Arg)) })
+			// the predicate also reads the container it is asked about (Has, Len, Get of the key it is shown), as a
+			// plain dictionary lets it; a call that does not come back within a minute has locked itself out
+			reads := 0
+			pred := func(k, v int) bool {
+				if c19ReadsBlock {
+					reads++ // seen to lock itself out once in this process: not tried again (each try costs the full wait)
+					return c19Pred(op.Arg)(k, v)
+				}
+				if m.Has(k) && m.Len() > 0 {
+					if gv, ok := m.Get(k); ok && gv == v {
+						reads++
+					}
+				}
+				return c19Pred(op.Arg)(k, v)
+			}
+			done := make(chan struct{})
+			go func() {
+				defer close(done)
+				p = mon.Guard(func() { got, found = m.Find(pred) })
+			}()
+			select {
+			case <-done:
+			case <-time.After(30 * time.Second):
+				c19ReadsBlock = true
+				fail(i, "reentrant-read", "Find with a predicate that reads the container (Has, Len, Get) did not return within 30 s")
+				return false
+			}
 			wantFound := false
 			var want kv
 			for _, k := range d.keys {
@@ -441,6 +471,17 @@ func c19Apply(r *mon.Run, cs c19Case) bool {
 			}
 			if p == nil && (found != wantFound || (found && got != want)) {
 				fail(i, "find", fmt.Sprintf("Find returned %v,%v; reference %v,%v", got, found, want, wantFound))
+				return false
+			}
+			wantReads := len(d.keys)
+			for n, k := range d.keys {
+				if c19Pred(op.Arg)(k, d.vals[k]) {
+					wantReads = n + 1
+					break
+				}
+			}
+			if p == nil && reads != wantReads {
+				fail(i, "find", fmt.Sprintf("while Find ran, the container confirmed (Has, Get) %d of the %d entries it showed to the predicate", reads, wantReads))
 				return false
 			}
 		}
